@@ -239,6 +239,24 @@ def run_partial(res, c, d, base, tier):
                 res.violation('partial:build:%s' % type(e).__name__, 'get_transform_fxn(mef_channels=%r) with stub stages raised %s: %s' % (
                     mef_channels, type(e).__name__, e), dict(c))
                 continue
+            # the returned function applied to a sample whose columns are arranged differently from the bead file
+            if all(isinstance(x, str) for x in mef_channels):
+                d_re = d[:, ['CH4', 'CH3', 'CH2', 'CH1']]
+                b_re = np.array(d_re.view(np.ndarray))
+                try:
+                    t_re = np.asarray(tf(d_re, None))
+                    for col, nm in enumerate(d_re.channels):
+                        j = NAMES.index(nm)
+                        exp = P[j] * b_re[:, col] + Q[j] if j in MC else b_re[:, col]
+                        if t_re[:, col].tobytes() != np.asarray(exp, dtype=np.float64).tobytes():
+                            res.violation('partial-layout:paired-wrong', 'transform from get_transform_fxn(mef_channels=%r) applied to a sample with columns %r: channel %s is not converted with its own curve / not left alone' % (
+                                mef_channels, list(d_re.channels), nm), dict(c))
+                            break
+                    else:
+                        res.ok('partial-layout', True)
+                except Exception as e:
+                    res.violation('partial-layout:raises:%s' % type(e).__name__, 'transform from get_transform_fxn(mef_channels=%r) applied to a sample with columns %r raised %s: %s' % (
+                        mef_channels, list(d_re.channels), type(e).__name__, e), dict(c))
             for phase in ('fresh', 'after the caller changed its lists'):
                 for req, cols in requests('quick'):
                     rc = list(MC) if cols is None else cols
